@@ -389,6 +389,23 @@ func (g *G) debugInfo() {
 			flags += " | " + dispFlag[g.intn("spx", len(dispFlag))]
 		}
 		sp.Fields = []*am.MDField{{K: am.MDString, Str: "fn"}, ref(d.files[0]), ref(d.files[0]), {K: am.MDInt, Int: big.NewInt(int64(g.rng("spline", 1, 99)))}, ref(st), {K: am.MDInt, Int: big.NewInt(1)}, {K: am.MDEnum, Str: flags}, ref(cu)}
+		if !g.off("di-oldstyle-spflags") && g.chance("spoldstyle", 1, 4) {
+			// the spelling from before spFlags existed (still read by LLVM 14, and kept field by field by the library)
+			for i, n := range sp.Names {
+				if n == "spFlags" {
+					sp.Names = append(sp.Names[:i:i], sp.Names[i+1:]...)
+					sp.Fields = append(sp.Fields[:i:i], sp.Fields[i+1:]...)
+					break
+				}
+			}
+			sp.Names = append(sp.Names, "isLocal", "isDefinition", "isOptimized")
+			sp.Fields = append(sp.Fields, &am.MDField{K: am.MDBool, Bool: g.chance("spislocal", 1, 2)}, &am.MDField{K: am.MDBool, Bool: true}, &am.MDField{K: am.MDBool, Bool: g.chance("spisopt", 1, 2)})
+			if g.chance("spvirt", 1, 2) {
+				sp.Names = append(sp.Names, "virtuality", "virtualIndex")
+				sp.Fields = append(sp.Fields, &am.MDField{K: am.MDEnum, Str: g.pick("spvirtk", []string{"DW_VIRTUALITY_virtual", "DW_VIRTUALITY_pure_virtual"})}, &am.MDField{K: am.MDInt, Int: big.NewInt(int64(g.rng("spvidx", 0, 5)))})
+			}
+			g.feat("di/subprogram-old-style-flags")
+		}
 		if g.chance("spflags", 1, 2) {
 			sp.Names = append(sp.Names, "flags")
 			sp.Fields = append(sp.Fields, &am.MDField{K: am.MDEnum, Str: g.pick("spf", []string{"DIFlagPrototyped", "DIFlagArtificial | DIFlagPrototyped", "DIFlagNoReturn"})})
